@@ -70,8 +70,8 @@ AdjustEv ==
       q == IF a.some THEN a.p ELSE c.p
       t == [cfg |-> [feed |-> TRUE, adj |-> 0, dev |-> c.k], ots |-> 0, slot |-> 0, p |-> q, ref |-> c.ref]
       v == ValidateOne([now |-> 0, age |-> 0, range |-> 0, excess |-> 0], EmptyRange, t) IN
-  [k |-> c.k, p |-> c.p, ref |-> c.ref, some |-> a.some, q |-> q, vok |-> v.ok,
-   sok |-> (SmallPricesFromPrice(q) = ""), panic |-> FALSE]
+  [k |-> c.k, p |-> c.p, ref |-> c.ref, res |-> "ok", err |-> "", some |-> a.some, q |-> q, vok |-> v.ok,
+   sok |-> (SmallPricesFromPrice(q) = ""), dsome |-> a.some, dq |-> q, panic |-> FALSE]
 WithEv ==
   LET l == Load(c.vs, c.items, c.ac) IN
   [vs |-> c.vs, allow_closed |-> c.ac, f_ok |-> TRUE, pre |-> [cleared |-> TRUE, n |-> 0], items |-> c.items,
